@@ -2215,13 +2215,14 @@ fn tape_len(cfg: Cfg) -> std::ops::RangeInclusive<usize> {
 pub fn run(run: &Run) {
 	run.set_rule("one case = one call of one of the 35 listed std functions with generated arguments: arrays of length 0..8 (thorough: up to 40) over {0,-0,1,2,-1,1.5,\"\",\"a\",\"b\",\"ab\",true,false,null,[],[1],[1,2],{k:1},{k:2}} (70% uniformly typed, 30% mixed, narrow alphabet windows force duplicates and ties), strings where the documentation accepts them (incl. non-ASCII), index/count arguments from -3 to len+3, key/predicate/fold functions from a pool of total, partial (error on the element 1), type-changing, non-boolean and wrong-arity functions, wrong argument types (1 in 16), default / positional / named keyF and onEmpty; set functions receive sets built by the reference set(). Expected result: Rust transcription of the std.jsonnet definition over lazy values; observed by full manifestation and by std.length alone. Stages `lazy:*` put `error \"el\"` elements into the inputs and prefer functions that ignore their argument. Stages rel:sort / rel:sets check jrsonnet's own outputs against model-free relations. Non-trivial: length >= 2 with a tie between keys, or a boundary index, or an argument error; distinct by call text.");
 	run.assume("the definitions in std.jsonnet of the documented release (0.21) are the meaning of the functions; negative index/end of std.slice count from the end; '<' orders numbers, strings (code points) and arrays (lexicographic) and fails on other or mixed types");
-	run.assume("not demanded (left open): string elements in flattenArrays/sum/avg and string results of flatMap functions over arrays (the definition concatenates text), null results of flatMap functions over strings, non-booleans after the deciding element of any/all, std.range(a, b) with b < a - 1, minArray/maxArray of a single element of an unordered type, sorting when only some key pairs are incomparable, strings passed to map/mapWithIndex/contains/sort/uniq, fractional sizes and indexes, std.avg(onEmpty=)");
+	run.assume("not demanded (left open): string elements in flattenArrays/sum/avg and string results of flatMap functions over arrays (the definition concatenates text), null results of flatMap functions over strings, std.range(a, b) with b < a - 1, minArray/maxArray of a single element of an unordered type, sorting when only some key pairs are incomparable, strings passed to map/mapWithIndex/contains/sort/uniq, fractional sizes and indexes, std.avg(onEmpty=)");
 	if std::env::var_os("VERIF_C10_SELFTEST").is_some() {
 		selftest(run);
 		return;
 	}
 	let thorough = run.tier == Tier::Thorough;
 	run.enumerate("seeds", SEEDS.len() as u64, |i| decide_seed(run, i as usize));
+	run.enumerate("any-all", any_all_size(), any_all_case);
 	let cfg = Cfg { long: thorough, lazy: false };
 	let n = run.tier.pick(25_000, 250_000);
 	for (name, g) in FNS {
@@ -2252,11 +2253,69 @@ pub fn run(run: &Run) {
 }
 const LONG_STAGES: &[&str] = &["sort", "set", "uniq", "setUnion", "setInter", "setDiff", "setMember", "minArray", "maxArray"];
 
+/// std.any / std.all over every array of length <= 4 on {true, false, 1, "x", error}: the definition in std.jsonnet walks
+/// the array from the left, asserts that the element it looks at is a boolean, and stops at the deciding element —
+/// whatever comes after it (other types, failing elements) is never looked at.
+const ANY_ALL_ELEMS: &[&str] = &["true", "false", "1", "'x'", "error 'el'"];
+fn any_all_size() -> u64 {
+	let k = ANY_ALL_ELEMS.len() as u64;
+	2 * (1 + k + k * k + k * k * k + k * k * k * k)
+}
+fn any_all_case(i: u64) -> CaseOut {
+	let k = ANY_ALL_ELEMS.len() as u64;
+	let all = i % 2 == 1;
+	let mut rest = i / 2;
+	let mut len = 0usize;
+	let mut count = 1u64;
+	while rest >= count {
+		rest -= count;
+		count *= k;
+		len += 1;
+	}
+	let mut elems = vec![];
+	for _ in 0..len {
+		elems.push((rest % k) as usize);
+		rest /= k;
+	}
+	let text = format!("std.{}([{}])", if all { "all" } else { "any" }, elems.iter().map(|e| ANY_ALL_ELEMS[*e]).collect::<Vec<_>>().join(", "));
+	// the definition, transcribed: Some(bool) or None = error
+	let mut want: Option<bool> = Some(all);
+	for e in &elems {
+		match *e {
+			0 | 1 => {
+				let b = *e == 0;
+				if b != all {
+					want = Some(b);
+					break;
+				}
+			}
+			_ => {
+				want = None;
+				break;
+			}
+		}
+	}
+	let got = jr::eval(&text, &Opts::default());
+	let ok = match (&want, &got) {
+		(Some(b), Outcome::Val(v)) => v.trim() == b.to_string(),
+		(None, Outcome::Err(..)) => true,
+		_ => false,
+	};
+	if ok {
+		CaseOut::pass(text, len >= 2).class("any-all")
+	} else {
+		CaseOut::fail(text, format!("the definition gives {}, jrsonnet {}", want.map(|b| b.to_string()).unwrap_or_else(|| "an error".into()), got.short()))
+	}
+}
+
 pub fn replay(run: &Run, stage: &str, tape: Option<&[u16]>, v: &Value) -> Option<CaseOut> {
 	let mut long = v["tier"].as_str() == Some("thorough");
 	if stage == "seeds" {
 		let i = v["extra"]["index"].as_u64()? as usize;
 		return (i < SEEDS.len()).then(|| decide_seed(run, i));
+	}
+	if stage == "any-all" {
+		return v["extra"]["index"].as_u64().map(any_all_case);
 	}
 	let tape = tape?;
 	let mut src = Src::new(tape);
